@@ -92,6 +92,9 @@ def real_specs(chk: common.Check) -> list[dict]:
                    't = threading.Thread(target=w)\nt.start()\nt.join()\nx = 1\n'), policy=pol_next, trace_threads=True, expect='plain')
     add(statement=SCRIPTS['asyncio'], policy=pol_next, expect='plain')
     add(statement=SCRIPTS['single'], mode='continuous', expect='plain')
+    # the script ends (by raising) while thousands of its events are still on their way: the child waits for the relay, and the
+    # result reported afterwards is still that of the run
+    add(statement="for i in range(3000):\n    pass\nraise RuntimeError('at the very end')\n", mode='continuous', expect='raise:RuntimeError', timeout=90)
     # signals at an open prompt of the main thread (the child is quiescent there)
     ks = [1, 3] if chk.tier == 'quick' else [1, 2, 3, 4, 5]
     for kind in ('interrupt', 'terminate', 'kill'):
